@@ -727,7 +727,7 @@ impl UsingResult {
         used: false,
     };
     const PANIC: Self = Self {
-        status: Status::Error,
+        status: Status::Panic,
         used: false,
     };
     #[cfg(test)]
